@@ -256,7 +256,7 @@ pub fn run(rep: &Report) {
     );
     rep.assume("the wall-clock watchdog is the driver's; the pass bound is a logical count of transaction ids consumed");
     let n = match rep.tier {
-        Tier::Quick => 4_000u64,
+        Tier::Quick => 10_000u64,
         Tier::Thorough => 120_000u64,
     };
     run_cases(
